@@ -93,17 +93,6 @@ def p_stale_source(a, b, strict=True):
         any(s == n for s in sources(a) for n in new_names(b))
 
 
-def p_orefa_excl_on_dir(a, b, strict=True):
-    """OrefaFS OpenFile(O_CREATE|O_EXCL) on an existing directory answers EISDIR sequentially (and so
-    CreateTemp gives up instead of retrying) but EEXIST when the directory appears after its first look"""
-    if a["op"] not in ("create", "createtemp"):
-        return False
-    if b["op"] not in ("mkdir", "mkdirall", "mkdirtemp", "rename"):
-        return False
-    return any(x == y or (x.endswith("*") and y.startswith(x[:-1])) or (y.endswith("*") and x.startswith(y[:-1]))
-               for x in new_names(a) for y in new_names(b))
-
-
 NONLIN_CLASSES = [
     ("insert-without-recheck", p_insert_no_recheck),
     ("create-in-detached-dir", p_create_in_detached),
@@ -125,15 +114,7 @@ def classify(f):
     if kind == "deadlock":
         return classify_deadlock(f)
     if kind == "panic":
-        if fs == "orefafs":
-            allc = [c for t in calls for c in t]
-            if any(c["op"] == "rename" and c["res"] == "panic" for c in allc) and \
-               any(c["op"] == "mkdirall" and c["res"] == "ok" and len(c["args"][0].split("/")) >= 4 for c in allc):
-                return "C07-orefafs-rename-panics-after-inverted-mkdirall"
-            for a, b in cross_pairs(calls):
-                if a["op"] == "rename" and a["res"] in ("panic", "noreturn") and b["op"] in ("removeall", "remove", "rename"):
-                    return "C07-orefafs-rename-panics-when-parent-vanishes"
-        return None
+        return None     # no panic under interleaving is a known finding any more (OrefaFS Rename: fixed in /repo)
     if kind == "tempdup":
         # the same temp name in two incarnations of a directory that was removed / renamed meanwhile
         for a, b in cross_pairs(calls):
@@ -142,10 +123,6 @@ def classify(f):
         return None
     if kind != "nonlin":
         return None
-    if fs == "orefafs":
-        for a, b in cross_pairs(calls):
-            if p_orefa_excl_on_dir(a, b) and (not two or "L17" in (a["res"], b["res"]) or a["op"] == "createtemp"):
-                return "C06-orefafs-excl-create-on-directory"
     for name, pred in NONLIN_CLASSES:
         for a, b in cross_pairs(calls):
             if pred(a, b, strict=two):
